@@ -93,4 +93,20 @@ if __name__ == "__main__":
         render(n, o)
     # reachability witnesses: configurations in which the named "invariant" must be VIOLATED
     render("MC_Reuse_kf", dict(CONFIGS["MC_Reuse_q"]), extra_inv="NoKF")
+    # C08, liveness at design level (MC_Mux.tla: FairSpec / WdTerminates): the teardown configuration without VIEW, with
+    # weak fairness of the connection tasks and of accepting; without the fairness the property must fail (self-test)
+    base = open(os.path.join(SPEC, "MC_Teardown_q.cfg")).read().split("\n")
+    for name, spec in (("MC_TeardownLive_q", "FairSpec"), ("MC_TeardownLive_nofair", "Spec")):
+        out = []
+        for line in base:
+            if line.startswith("SPECIFICATION"):
+                out.append("SPECIFICATION " + spec)
+            elif line.startswith("VIEW"):
+                continue
+            elif line.startswith("INVARIANTS"):
+                out += ["INVARIANT NoViolation", "PROPERTY WdTerminates"]
+            else:
+                out.append(line)
+        with open(os.path.join(SPEC, name + ".cfg"), "w") as f:
+            f.write("\n".join(out))
     print("wrote", len(CONFIGS) + 1, "configs")
